@@ -611,7 +611,8 @@ def gen_e2e_cases(ctx: Ctx):
         for bw in (0, 1):
             yield {"kind": "e2e-df", "R": R, "groups": rng.randint(1, 2), "kernels": rng.randint(1, 3),
                    "seed": rng.randint(0, 10 ** 6), "bw": bw,
-                   "opts": rng.choice([[], ["--flow"], ["--keep_prep"], ["-C", "power_ts4", "coll_bw"], ["--disable_tb"]])}
+                   "opts": rng.choice([[], ["--flow"], ["--keep_prep"], ["-C", "power_ts4", "coll_bw"], ["--disable_tb"],
+                                       ["--time_unit", "ms"], ["--time_unit", "ms", "--keep_prep"]])}
 
 
 def real_opts(opts):
